@@ -171,11 +171,15 @@ Definition toggle (auth : bool) (t : tok) (s : state) : state * res :=
            end
        end.
 
-(* ConvertCoin (t = the coin's denomination) / ConvertERC20 (t = the contract address string),
-   with a receiver that is not blocked and equal to the sender, and a positive amount.
+(* ConvertCoin ([coin = true], t = the denomination of the coin offered) / ConvertERC20
+   ([coin = false], t = the contract address string), with a receiver that is not blocked and
+   equal to the sender, and a positive amount.
    Only the registry is modelled: when the contract still has code the conversion proper runs
-   (C03/C04), the registry is untouched and the result is not specified here. *)
-Definition convert (t : tok) (dead : list Z) (s : state) : state * res :=
+   (C03/C04), the registry is untouched and the result is not specified here.
+   ConvertCoin refuses a coin whose denomination is not the denomination of the pair the string
+   resolves to (a coin merely NAMED like the pair's contract address; /repo fix 1aaf795) - before
+   it looks at the contract, so such a message never removes a pair. *)
+Definition convert (coin : bool) (t : tok) (dead : list Z) (s : state) : state * res :=
   if negb (st_enable s) then (s, Rejected)
   else match get_pair_id s t with
        | None => (s, Rejected)
@@ -184,6 +188,7 @@ Definition convert (t : tok) (dead : list Z) (s : state) : state * res :=
            | None => (s, Rejected)
            | Some p =>
                if negb (p_enabled p) then (s, Rejected)
+               else if coin && negb (bool_decide (t = p_denom p)) then (s, Rejected)
                else if existsb (Z.eqb (p_addr p)) dead then (delete_pair p s, Ok)
                else (s, Unspec)
            end
@@ -217,7 +222,7 @@ Inductive op :=
 | OpRegCoin (auth ext : bool) (d : tok) (fresh : Z)
 | OpRegErc20 (auth ext : bool) (a : Z)
 | OpToggle (auth : bool) (t : tok)
-| OpConvert (t : tok) (dead : list Z)
+| OpConvert (coin : bool) (t : tok) (dead : list Z)
 | OpSetEnable (auth b : bool)
 | OpExportImport        (* export the module's genesis and start an empty store from it *)
 | OpEnv.                (* something outside the registry happened (mint, self-destruct) *)
@@ -227,7 +232,7 @@ Definition step (o : op) (s : state) : state * res :=
   | OpRegCoin auth ext d fresh => register_coin auth ext d fresh s
   | OpRegErc20 auth ext a => register_erc20 auth ext a s
   | OpToggle auth t => toggle auth t s
-  | OpConvert t dead => convert t dead s
+  | OpConvert coin t dead => convert coin t dead s
   | OpSetEnable auth b => set_enable auth b s
   | OpExportImport => (init_genesis (export_genesis s) (empty_state false), Ok)
   | OpEnv => (s, Ok)
